@@ -4,6 +4,8 @@ _NF = 'exactly_lib/impls/types/files_matcher/impl/matches/matches_non_full.py'
 
 _MODELS = 'exactly_lib/impls/types/files_matcher/models.py'
 
+_FL = 'exactly_lib/impls/types/files_source/impl/file_list.py'
+
 MUTANTS = [
     ('c15-nonfull-matcher-inverted', 'C15', _NF,
      "                    if not matching_result.value:", "                    if matching_result.value:",
@@ -41,4 +43,30 @@ MUTANTS = [
      "                                         pathlib.Path('.') / 'x' / dir_entry.name,\n"
      "                                         root_dir_path.child(dir_entry.name))",
      '_FilesGeneratorForNonRecursive.generate : ensures[the direct contents of the directory'),
+    ('c15-fc-name-absolute-accepted', 'C15', 'exactly_lib/impls/types/files_condition/impl/literal.py',
+     "        path = PurePosixPath(self.path_str)\n        if path.is_absolute():",
+     "        path = PurePosixPath(self.path_str)\n        if not path.is_absolute():",
+     '_IsRelativePosixPath.validate_pre_sds_if_applicable : ensures['),
+    ('c15-filelist-adv-reversed', 'C15', _FL,
+     "            file.primitive(environment)\n            for file in self._files\n",
+     "            file.primitive(environment)\n            for file in reversed(self._files)\n",
+     'file_list:_Adv.primitive : ensures[entry k'),
+    ('c15-filelist-ddv-drops-first', 'C15', _FL,
+     "            file.value_of_any_dependency(tcds)\n            for file in self._files\n",
+     "            file.value_of_any_dependency(tcds)\n            for file in self._files[1:]\n",
+     'file_list:_Ddv.value_of_any_dependency : ensures[as many entries]'),
+    ('c15-filelist-sdv-reversed', 'C15', _FL,
+     "            file_spec.resolve(symbols)\n            for file_spec in self._files\n",
+     "            file_spec.resolve(symbols)\n            for file_spec in reversed(self._files)\n",
+     'file_list:Sdv.resolve : ensures[entry k'),
+    ('c15-walk-descends-into-pruned', 'C15', _MODELS,
+     "                if (maybe_entry_for_dir.is_dir() and\n"
+     "                        not directory_prune.matches_w_trace(current_file_model.as_file_matcher_model()).value):",
+     "                if (maybe_entry_for_dir.is_dir() and\n"
+     "                        directory_prune.matches_w_trace(current_file_model.as_file_matcher_model()).value):",
+     '_FilesGeneratorForRecursive.generate : loop#1 invariant[preserved]'),
+    ('c15-walk-sub-dir-of-the-root', 'C15', _MODELS,
+     "            self._absolute_parent.child(dir_entry.name),\n            self.depth + 1,",
+     "            self._absolute_parent.parent().child(dir_entry.name),\n            self.depth + 1,",
+     '_FilesGeneratorForRecursive.generate : loop#1 invariant[preserved]'),
 ]
